@@ -494,6 +494,12 @@ fn run_box_word(ctx: &Ctx, pw: f32, vw: f32, init: &Universal2DBox, word: &[usiz
             }
         } else {
             let m = box_meas(&mut obj, z0[4], z0[3], sym, k);
+            // a jitter step at an even position reports the box without an angle (a detector that lost
+            // the orientation): the library's measurement model reads a missing angle as 0
+            let mut m = m;
+            if sym == 6 && k % 2 == 0 {
+                m[2] = 0.0;
+            }
             let mb = Universal2DBox::new(m[0], m[1], if m[2] == 0.0 { None } else { Some(m[2]) }, m[3], m[4]);
             let z: Vec<f64> = m.iter().map(|x| *x as f64).collect();
             // distance first (uses the pre-state)
@@ -642,7 +648,7 @@ fn words(len: usize, nsym: usize, f: &mut dyn FnMut(&[usize])) {
 
 pub fn run(tier: Tier) -> Report {
     let rep = Report::new("C07", tier);
-    rep.set_rule("(a) every word over {predict, update(still|drift|jump|shrink|grow|jitter)} of length <= L (quick 5, thorough 7) and every word of length <= 4 repeated to 300 steps, for box / point / 2-point-vector filters x 3 weight pairs x initial measurements; every step compared with the f64 textbook step computed from the implementation's own pre-state. (b) cost(d,true) == 100 - cost(d,false) and the gate value for f32 bit patterns d >= 0 (thorough: all 2^31; quick: stride + neighbourhoods of every chi-square table entry). Distinct = words / patterns enumerated without repetition.");
+    rep.set_rule("(a) every word over {predict, update(still|drift|jump|shrink|grow|jitter)} of length <= L (quick 5, thorough 7) and every word of length <= 4 repeated to 300 steps, for box / point / 2-point-vector filters x 3 weight pairs x initial measurements; rotated tracks also receive angle-less measurements (jitter at even positions); every step compared with the f64 textbook step computed from the implementation's own pre-state. (b) cost(d,true) == 100 - cost(d,false) and the gate value for f32 bit patterns d >= 0 (thorough: all 2^31; quick: stride + neighbourhoods of every chi-square table entry). Distinct = words / patterns enumerated without repetition.");
     rep.assume("f64 reference recurrence with the library's documented noise model; tolerances k*2^-24*block scale");
     let ctx = Ctx { rep: &rep, steps: AtomicU64::new(0), words: AtomicU64::new(0) };
 
